@@ -31,6 +31,10 @@ struct Trace {
     fired: bool,
     helper_records: usize,
     helper_chunks: usize,
+    /// `vm.commit.begin` details that publish a row-set (`add:<t>:<r>`), in order
+    publishes: Vec<String>,
+    /// row-set directories created (`persist.rowset.mkdir`)
+    mkdirs: usize,
 }
 
 const HELPER_FROM: usize = 1_000_000;
@@ -84,6 +88,16 @@ fn install(trace: Arc<Mutex<Trace>>, fault: Option<Fault>) {
                     }
                 }
                 if node == HELPER_FROM { t.helper_records += 1 } else { t.helper_chunks += 1 }
+                Action::Continue
+            }
+            "vm.commit.begin" => {
+                if detail.contains("add:") {
+                    t.publishes.push(detail.to_string());
+                }
+                Action::Continue
+            }
+            "persist.rowset.mkdir" => {
+                t.mkdirs += 1;
                 Action::Continue
             }
             "exec.end" => {
@@ -150,7 +164,9 @@ fn gen_case(r: &mut Rng, i: usize) -> Case {
     // disk cases are slower (fresh directory per fault): one in five
     // 3/5 memory, 1/5 disk with several row-sets per table (scan order not reproducible: class
     // only), 1/5 disk with ONE row-set per table (deterministic: full comparison)
-    let engine = if i % 5 >= 3 { "disk" } else { "mem" };
+    // every other multi-row-set disk case uses tiny row-sets (`diskt`: target_rowset_size = 1, a
+    // multi-chunk INSERT … SELECT rolls a row-set over per chunk, before any fault at chunk k)
+    let engine = if i % 5 == 4 && (i / 5) % 2 == 0 { "diskt" } else if i % 5 >= 3 { "disk" } else { "mem" };
     let single = i % 5 == 3;
     // every sixth case: a scan of 20+ one-row chunks, so that item indices beyond the capacity
     // (16) of the operator output channel exist (faults at k = 15..18 hit a full / just drained channel)
@@ -243,7 +259,11 @@ fn gen_case(r: &mut Rng, i: usize) -> Case {
         format!("delete from t"),
         format!("delete from u where x in (select a from t where b {cmp} {c})"),
     ];
-    let stmt = if engine == "disk" {
+    let stmt = if engine == "diskt" {
+        // DML only: what matters here is what a failed statement leaves behind
+        let dml: Vec<&String> = templates.iter().filter(|t| t.starts_with("insert") || t.starts_with("delete")).collect();
+        (*r.pick(&dml)).clone()
+    } else if engine == "disk" {
         // on disk: DML and blocking queries (row order of scans over several row-sets is not
         // defined, so no bare LIMIT)
         let pickable: Vec<&String> = templates
@@ -282,12 +302,16 @@ struct Ctx {
 }
 
 fn build_db(ctx: &mut Ctx, case: &Case) -> Result<(Database, Option<String>), String> {
-    let (db, dir) = if case.engine == "disk" {
+    let (db, dir) = if case.engine.starts_with("disk") {
         ctx.n_dirs += 1;
         let dir = format!("{}/db{}", ctx.work, ctx.n_dirs);
         let _ = std::fs::remove_dir_all(&dir);
         let mut opt = rlverif::risinglight::storage::SecondaryStorageOptions::default_for_cli();
         opt.path = std::path::PathBuf::from(&dir);
+        if case.engine == "diskt" {
+            // tiny row-sets: every non-empty chunk a statement appends rolls the memtable over
+            opt.target_rowset_size = 1;
+        }
         let db = catch(|| ctx.rt.block_on(Database::verif_new_on_disk_nobg(opt)))
             .map_err(|p| format!("open panicked: {p}"))?
             .map_err(|e| format!("open failed: {e}"))?;
@@ -449,6 +473,8 @@ struct RunOut {
     trace: Trace,
     panics: usize,
     tables: Vec<Vec<Vec<String>>>,
+    /// the tables after closing and reopening the directory (disk engines)
+    reopened: Option<Vec<Vec<Vec<String>>>>,
 }
 
 fn run_with(ctx: &mut Ctx, case: &Case, fault: Option<Fault>) -> Result<(RunOut, Vec<Vec<Vec<String>>>), String> {
@@ -463,10 +489,21 @@ fn run_with(ctx: &mut Ctx, case: &Case, fault: Option<Fault>) -> Result<(RunOut,
     let post = tables(ctx, &db);
     let trace = tr.lock().unwrap().clone();
     drop(db);
+    let mut reopened = None;
     if let Some(d) = dir {
+        // what a later session sees: reopen the directory (same options)
+        let mut opt = rlverif::risinglight::storage::SecondaryStorageOptions::default_for_cli();
+        opt.path = std::path::PathBuf::from(&d);
+        if case.engine == "diskt" {
+            opt.target_rowset_size = 1;
+        }
+        reopened = Some(match catch(|| ctx.rt.block_on(Database::verif_new_on_disk_nobg(opt))) {
+            Ok(Ok(db2)) => tables(ctx, &db2),
+            _ => vec![vec![vec!["REOPEN-FAILED".to_string()]]],
+        });
         let _ = std::fs::remove_dir_all(d);
     }
-    Ok((RunOut { outcome, trace, panics, tables: post }, pre))
+    Ok((RunOut { outcome, trace, panics, tables: post, reopened }, pre))
 }
 
 fn bag_eq(a: &[Vec<String>], b: &[Vec<String>]) -> bool {
@@ -549,7 +586,8 @@ fn run_case(ctx: &mut Ctx, cid: usize, case: &Case, thorough: bool, out: &mut Ve
             "names_ok": names_ok,
             "spawned": spawned.iter().map(|s| s.1.clone()).collect::<Vec<_>>(),
             "not_ended": spawned.iter().filter(|s| !nf.trace.ended.contains(&s.0)).map(|s| s.1.clone()).collect::<Vec<_>>(),
-            "tables_eq_pre": nf.tables == pre}));
+            "publishes": nf.trace.publishes,
+            "tables_eq_pre": nf.tables == pre && nf.reopened.as_ref().map(|r| *r == pre).unwrap_or(true)}));
         return;
     }
     // 2. tree from postfix order
@@ -573,6 +611,7 @@ fn run_case(ctx: &mut Ctx, cid: usize, case: &Case, thorough: bool, out: &mut Ve
         "nrows": nf_rows.len(), "dml": is_dml,
         "ops": nodes.iter().map(|n| n.name.clone()).collect::<Vec<_>>(),
         "outs": nodes.iter().map(|n| n.outs.clone()).collect::<Vec<_>>(),
+        "mkdirs": nf.trace.mkdirs, "publishes": nf.trace.publishes,
         "tables_eq_pre": nf.tables == pre, "delta": (total_rows(&nf.tables) - total_rows(&pre)).abs()}));
     // 3. faults
     let mut faults: Vec<Fault> = vec![];
@@ -613,6 +652,11 @@ fn run_case(ctx: &mut Ctx, cid: usize, case: &Case, thorough: bool, out: &mut Ve
             "count_value": count_value, "panics": fr.panics,
             "err_text": match &fr.outcome { Outcome::Err(e) => e.clone(), Outcome::Panic(e) => e.clone(), _ => String::new() },
             "tables_eq_pre": fr.tables == pre2, "tables_eq_post": fr.tables == nf.tables,
+            "reopen_eq_pre": fr.reopened.as_ref().map(|r| *r == pre2), "reopen_eq_now": fr.reopened.as_ref().map(|r| *r == fr.tables),
+            "mkdirs": fr.trace.mkdirs, "publishes": fr.trace.publishes,
+            // row counts of the chunks the DML root's child sent in this run (what was appended)
+            "consumed": if is_dml { let c = nodes[nodes.len() - 1].kids[0];
+                fr.trace.items.iter().filter(|x| x.0 == c).filter_map(|x| x.2.strip_prefix("ok:").and_then(|n| n.parse::<usize>().ok())).collect::<Vec<_>>() } else { vec![] },
             "delta": (total_rows(&fr.tables) - total_rows(&pre2)).abs(),
             "pre_same": pre2 == pre}));
     }
@@ -650,7 +694,8 @@ fn run_case(ctx: &mut Ctx, cid: usize, case: &Case, thorough: bool, out: &mut Ve
                 };
                 rec(json!({"type": "helper-fault", "helper": hname, "k": k, "kind": kind, "fired": fr.trace.fired,
                     "class": fr.outcome.class(), "panics": fr.panics, "model_req": model_req,
-                    "tables_eq_pre": fr.tables == pre2, "dml": is_dml,
+                    "tables_eq_pre": fr.tables == pre2 && fr.reopened.as_ref().map(|r| *r == pre2).unwrap_or(true), "dml": is_dml,
+                    "publishes": fr.trace.publishes,
                     "err_text": match &fr.outcome { Outcome::Err(e) | Outcome::Panic(e) => e.chars().take(120).collect::<String>(), _ => String::new() }}));
             }
         }
